@@ -6,6 +6,7 @@ cd /verif
 ids=("$@"); [ ${#ids[@]} -eq 0 ] && ids=($(ls seeded))
 missed=0; n=0
 for id in "${ids[@]}"; do
+  if python3 -c "import json,sys;sys.exit(0 if json.load(open('/verif/seeded/$id/meta.json')).get('obsolete') else 1)"; then echo "$id: obsolete (no longer breaks the property, see meta.json)"; continue; fi
   wt=/tmp/sr/$id; mkdir -p /tmp/sr
   git -C /repo worktree remove --force $wt >/dev/null 2>&1
   git -C /repo worktree add -q --detach $wt HEAD || { echo "$id: WORKTREE FAILED"; continue; }
